@@ -20,10 +20,17 @@ func main() { vm.Main("C13", run) }
 
 var nStates, nBiomes int
 
+type beDesc struct {
+	x, z, y, typ int
+	payload      []byte // nil: no data
+}
+
 type chunkDesc struct {
-	secs   int
-	ops    []string
-	palCls []string
+	secs     int
+	ops      []string
+	palCls   []string
+	model    *chunkModel
+	entities []beDesc
 }
 
 func (d *chunkDesc) wit() any {
@@ -42,6 +49,7 @@ func buildChunk(r *vm.Rand, secs int, maxDistinct int) (*level.Chunk, *chunkDesc
 	for v := uint(secs)*16 + 1; v != 0; v >>= 1 {
 		hbits++
 	}
+	d.model = newModel(secs, hbits)
 	for si := range c.Sections {
 		s := &c.Sections[si]
 		cls := []int{1, 2, 10, 16, 17, 30, 40, 70, 140, 256, 257, 320}[r.Intn(12)]
@@ -67,13 +75,19 @@ func buildChunk(r *vm.Rand, secs int, maxDistinct int) (*level.Chunk, *chunkDesc
 			i := r.Intn(4096)
 			v := vals[j%len(vals)]
 			s.SetBlock(i, level.BlocksState(v))
+			d.model.blocks[si][i] = v
 		}
 		d.palCls = append(d.palCls, fmt.Sprintf("s%d:%d-values", si, cls))
 		d.ops = append(d.ops, fmt.Sprintf("section %d: %d SetBlock over %d candidate states", si, nset, cls))
 		// biomes
 		bcls := []int{1, 2, 3, 4, 5, 8, 9, 30}[r.Intn(8)]
 		for j := 0; j < bcls*2; j++ {
-			s.Biomes.Set(r.Intn(64), level.BiomesState(r.Intn(min(nBiomes, bcls*2))))
+			bi, bv := r.Intn(64), r.Intn(min(nBiomes, bcls*2))
+			if bcls == 30 && j%3 == 0 {
+				bv = nBiomes - 1 - r.Intn(4) // the last ids of the registry
+			}
+			s.Biomes.Set(bi, level.BiomesState(bv))
+			d.model.biomes[si][bi] = bv
 		}
 		// light
 		if r.Bool() {
@@ -83,25 +97,43 @@ func buildChunk(r *vm.Rand, secs int, maxDistinct int) (*level.Chunk, *chunkDesc
 			s.BlockLight = r.Bytes(2048)
 		}
 	}
-	for _, hm := range []*level.BitStorage{c.HeightMaps.WorldSurfaceWG, c.HeightMaps.WorldSurface, c.HeightMaps.OceanFloorWG, c.HeightMaps.OceanFloor, c.HeightMaps.MotionBlocking, c.HeightMaps.MotionBlockingNoLeaves} {
+	for k, hm := range []*level.BitStorage{c.HeightMaps.WorldSurfaceWG, c.HeightMaps.WorldSurface, c.HeightMaps.OceanFloorWG, c.HeightMaps.OceanFloor, c.HeightMaps.MotionBlocking, c.HeightMaps.MotionBlockingNoLeaves} {
 		for j := 0; j < 40; j++ {
-			hm.Set(r.Intn(256), r.Intn(secs*16+1))
+			hi, hv := r.Intn(256), r.Intn(secs*16+1)
+			if j == 0 {
+				hi, hv = 255, secs*16 // the last entry at the greatest height
+			}
+			hm.Set(hi, hv)
+			d.model.hm[k][hi] = hv
 		}
 	}
 	nbe := r.Intn(4)
 	for j := 0; j < nbe; j++ {
 		var be level.BlockEntity
-		be.PackXZ(r.Intn(16), r.Intn(16))
-		be.Y = int16(r.Intn(384) - 64)
-		be.Type = block.EntityType(r.Intn(30))
+		bd := beDesc{x: r.Intn(16), z: r.Intn(16), y: r.Intn(384) - 64, typ: r.Intn(30)}
+		switch r.Intn(6) {
+		case 0:
+			bd.y = []int{-32768, 32767, -1, 2031}[r.Intn(4)]
+		case 1:
+			bd.typ = []int{127, 128, 300, 16384}[r.Intn(4)]
+		case 2:
+			bd.x, bd.z = 15, []int{0, 15}[r.Intn(2)]
+		}
+		// the packed byte: x in the high nibble, z in the low one (written here, not by PackXZ)
+		be.XZ = int8(uint8(bd.x<<4 | bd.z))
+		be.Y = int16(bd.y)
+		be.Type = block.EntityType(bd.typ)
 		tree := &refnbt.Value{Tag: refnbt.Compound, Comp: []refnbt.Entry{{Name: "id", V: refnbt.St("minecraft:chest")}, {Name: "n", V: refnbt.In(int32(r.Int64B()))}}}
 		if r.Bool() {
 			tree.Comp = append(tree.Comp, refnbt.Entry{Name: "Items", V: &refnbt.Value{Tag: refnbt.List, Elem: refnbt.Compound}})
 		}
 		be.Data = nbt.RawMessage{Type: nbt.TagCompound, Data: refnbt.EncodePayload(tree)}
+		bd.payload = be.Data.Data
 		if r.Intn(4) == 0 {
 			be.Data = nbt.RawMessage{} // a block entity without data (a single TAG_End on the wire)
+			bd.payload = nil
 		}
+		d.entities = append(d.entities, bd)
 		c.BlockEntity = append(c.BlockEntity, be)
 	}
 	d.ops = append(d.ops, fmt.Sprintf("%d block entities, height maps with %d-bit entries", nbe, hbits))
@@ -171,6 +203,9 @@ func checkNetwork(c *vm.Ctx, r *vm.Rand, ch *level.Chunk, d *chunkDesc) {
 	}
 	if err != nil || wn != int64(buf.Len()) {
 		c.Violation("net/write-count", fmt.Sprintf("Chunk.WriteTo n=%d err=%v, %d bytes produced", wn, err, buf.Len()), d.wit())
+		return
+	}
+	if !wireMatchesModel(c, buf.Bytes(), ch, d) {
 		return
 	}
 	dst := level.EmptyChunk(d.secs)
@@ -321,6 +356,9 @@ func checkSave(c *vm.Ctx, r *vm.Rand, ch *level.Chunk, d *chunkDesc, throughFile
 		c.Violation("save/to-error", "ChunkToSave failed: "+err.Error(), d.wit())
 		return
 	}
+	if !saveMatchesModel(c, &s, ch, d, "after ChunkToSave") {
+		return
+	}
 	if throughFile {
 		// the carrier fields of a chunk that never came from disk are zero RawMessages, which have no
 		// NBT image; give them minimal values so that Data() is applicable at all
@@ -345,6 +383,9 @@ func checkSave(c *vm.Ctx, r *vm.Rand, ch *level.Chunk, d *chunkDesc, throughFile
 			return
 		}
 		s = s2
+		if !saveMatchesModel(c, &s, ch, d, "after Data and Load") {
+			return
+		}
 		c.Cover(fmt.Sprintf("save.through-file.compression%d", comp))
 	}
 	var back *level.Chunk
@@ -630,6 +671,9 @@ func run(c *vm.Ctx) {
 		ch, d := buildChunk(r, secs, 320)
 		c.Eval(vm.HashStr("chunk", fmt.Sprint(c.Shard, i, secs)), true)
 		c.Cover(fmt.Sprintf("chunk.sections=%d", secs))
+		if !sourceMatchesModel(c, ch, d) {
+			continue
+		}
 		checkNetwork(c, r, ch, d)
 		// the save form: sections holding more than 256 distinct states use direct ids in memory
 		checkSave(c, r, ch, d, c.Thorough() || i%4 == 0)
